@@ -355,6 +355,11 @@ impl GrandState {
             ));
         }
         if option == EnterSubshellOption::Ignore {
+            if self.current_state.action != Action::Ignore {
+                // The signal has not been ignored since the shell startup, so
+                // the subshell must be able to set a new trap for it later.
+                self.current_state.origin = Origin::Subshell;
+            }
             self.current_state.action = Action::Ignore;
         }
 
